@@ -31,6 +31,7 @@ RULE = (
     "alpha + 3*SE, otherwise inconclusive (reported, does not fail). Non-trivial = replicate with >= 1 accepted "
     "target at alpha = 0.1; distinct = replicate seeds."
     " Every fifth pipeline replicate models two collections of different size jointly (larger first or last); each collection is an observation."
+    " sorted_ties / decoys_first_ties: the coarse design with the file sorted by label (all targets first / all decoys first) and the confidence stage split so that a spectrum's target and decoy sit in different chunks."
 )
 ASSUMPTIONS = [
     "statistical decision: exchangeability holds by construction of the simulator only; false-alarm probability per cell < 1e-8 under the property",
@@ -70,10 +71,20 @@ def plan(seed, tier):
     for i in range(16 if tier == "quick" else 96):
         cases.append({"class": "coarse", "index": i, "top": [1, 2][i % 2], "grid": [0.75, 1.5][(i // 2) % 2],
                       "pi1": [0.15, 0.4][(i // 4) % 2], "reps": 100, "cost": 8})
+    # label-sorted file (all targets before all decoys, as when target and decoy search results are concatenated),
+    # exactly tied target / decoy scores, and the confidence stage split so that a spectrum's target and decoy sit in
+    # different chunks
+    for i in range(4 if tier == "quick" else 24):
+        cases.append({"class": "sorted_ties", "index": i, "top": 1, "grid": [0.75, 1.5][i % 2], "pi1": [0.15, 0.4][i % 2],
+                      "order": "targets_first", "reps": 60, "cost": 8})
+    # the mirrored layout (all decoys first): ties then go to the decoys, which is conservative and must stay so
+    for i in range(4 if tier == "quick" else 24):
+        cases.append({"class": "decoys_first_ties", "index": i, "top": 1, "grid": [0.75, 1.5][i % 2], "pi1": [0.15, 0.4][i % 2],
+                      "order": "decoys_first", "reps": 60, "cost": 8})
     return cases
 
 
-MANDATORY_CLASSES = ["pipeline", "small", "coarse"]
+MANDATORY_CLASSES = ["pipeline", "small", "coarse", "sorted_ties", "decoys_first_ties"]
 
 
 def simulate(rng, design, n_spectra, pi1, file_index=0, n_info=None, sep=None):
@@ -220,7 +231,7 @@ def run_coarse(case):
     so whichever row order breaks the tie is independent of the label. A tie-break that prefers targets
     under-counts decoys. Judged without the learning slack: the (D+1)/T estimate controls E[FDP] exactly here."""
     rng = core.seed_seq(case["seed"], "C04", "coarse", case["index"])
-    res = Result(case, key=f"coarse/{case['seed']}/{case['index']}")
+    res = Result(case, key=f"{case['class']}/{case['seed']}/{case['index']}")
     obs = []
     nt = 0
     with core.scratch("c04c") as d:
@@ -231,10 +242,19 @@ def run_coarse(case):
             tab = psm.psm_table(rng, n_spectra=n_spectra, paired=True, pi1=pi1, key_cols=("ExpMass",), n_info=1, n_noise=1,
                                 sep_strength=2.5, pep_pool=max(5, n_spectra // 6), with_rid=False)
             L = int(case["top"])
+            if case.get("order") in ("targets_first", "decoys_first"):
+                t_ = tab["truth"]["is_target"].values
+                idx = np.argsort(~t_ if case["order"] == "targets_first" else t_, kind="stable")
+                tab["df"] = tab["df"].iloc[idx].reset_index(drop=True)
+                tab["truth"] = tab["truth"].iloc[idx].reset_index(drop=True)
             s = np.clip(np.round(tab["df"]["info0"].values.astype(float) / g), -L, L).astype(float)
             p = psm.write_pin(tab, d / "c.pin")
             ds = pipeline.read_datasets([p])
             sizes = {"CONFIDENCE_CHUNK_SIZE": int(0.6 * len(s))} if r % 3 == 1 else {}
+            if case.get("order") == "targets_first":
+                sizes = {"CONFIDENCE_CHUNK_SIZE": int(tab["truth"]["is_target"].sum())}   # targets in chunk 0, decoys in chunk 1
+            elif case.get("order") == "decoys_first":
+                sizes = {"CONFIDENCE_CHUNK_SIZE": int((~tab["truth"]["is_target"]).sum())}
             out_dir = d / "o"
             with core.chunk_sizes(**sizes):
                 c = pipeline.run_confidence(ds, [s], out_dir, decoys=True, rng=1, peps_algorithm="kde_nnls")
@@ -266,7 +286,7 @@ def run_coarse(case):
 
 
 def run_case(case):
-    return {"pipeline": run_pipeline, "small": run_small, "coarse": run_coarse}[case["class"]](case)
+    return {"pipeline": run_pipeline, "small": run_small, "coarse": run_coarse, "sorted_ties": run_coarse, "decoys_first_ties": run_coarse}[case["class"]](case)
 
 
 def finalize(cases, results, tier):
@@ -276,12 +296,12 @@ def finalize(cases, results, tier):
         c = bycase.get(r.get("id"))
         if not c or not r.get("obs"):
             continue
-        key = ("small",) if c["class"] == "small" else ("coarse", f"levels={2 * c['top'] + 1}", f"grid={c['grid']}", f"pi1={c['pi1']}") if c["class"] == "coarse" else (c["design"], c["learner"], c["folds"])
+        key = ("small",) if c["class"] == "small" else (c["class"], f"levels={2 * c['top'] + 1}", f"grid={c['grid']}", f"pi1={c['pi1']}") if c["class"] in ("coarse", "sorted_ties", "decoys_first_ties") else (c["design"], c["learner"], c["folds"])
         groups.setdefault(key, []).extend(r["obs"])
     table = []
     out = []
     for key, obs in sorted(groups.items()):
-        direct = key[0] in ("coarse",)   # no learning involved: no slack for the liberal bias of rescoring
+        direct = key[0] in ("coarse", "sorted_ties", "decoys_first_ties")   # no learning involved: no slack for the liberal bias of rescoring
         for lvl in ("psms", "peptides"):
             for a in (ALPHAS_COARSE if direct else ALPHAS):
                 fdps = [o[lvl][str(a)][0] / max(1, o[lvl][str(a)][1]) for o in obs if lvl in o and str(a) in o[lvl]]
@@ -300,7 +320,7 @@ def finalize(cases, results, tier):
                 table.append({"cell": "/".join(map(str, key)), "level": lvl, "alpha": a, "R": R, "mean_fdp": round(m, 4),
                               "se": round(se, 4), "mean_accepted": round(acc, 1), "verdict": verdict})
                 if verdict == "violated":
-                    rr = Result({"id": None, "class": key[0] if key[0] in ("small", "coarse") else "pipeline"}, key="/".join(map(str, key)))
+                    rr = Result({"id": None, "class": key[0] if key[0] in ("small", "coarse", "sorted_ties", "decoys_first_ties") else "pipeline"}, key="/".join(map(str, key)))
                     rr["evals"] = 0
                     rr.violate("fdr_not_controlled", f"{'/'.join(map(str, key))}/{lvl}/alpha={a}", mean_fdp=m, se=se, R=R,
                                alpha=a, mean_accepted=acc)
